@@ -94,7 +94,8 @@ def panic_sig(rec):
     msg = re.sub(r"`[^`]*`", "`_`", p.get("msg", ""))
     msg = re.sub(r"'[^']*'", "'_'", msg)
     msg = re.sub(r"\d+", "N", msg)
-    return {"file": f, "msg": msg[:80]}
+    msg = msg.split(" of `")[0]
+    return {"file": f, "msg": msg[:60]}
 
 
 _corpus_cache = None
@@ -139,7 +140,7 @@ def files_json(files):
     return out
 
 
-ABNORMAL = ("panic", "crash", "cpu-timeout", "wall-timeout", "harness_error")
+ABNORMAL = ("panic", "crash", "cpu-timeout", "wall-timeout", "harness_error", "oversized-record")
 
 
 def abnormal(rec):
